@@ -423,6 +423,15 @@ class DiscriminatedUnionUnpackerBuilder(AbstractUnpackerBuilder):
                     lines.append(f"raise ValueError({not_a_dict_msg!r}) from None")
                 with lines.indent("else:"):
                     lines.append("raise")
+            # an unhashable tag (list, dict) can not be the tag of any variant
+            with lines.indent("try:"):
+                lines.append("hash(discriminator)")
+            with lines.indent("except TypeError:"):
+                lines.append(
+                    "raise SuitableVariantNotFoundError("
+                    f"{variants_type_expr}, {discriminator.field!r}, "
+                    "discriminator) from None"
+                )
             with lines.indent("try:"):
                 if spec.builder.is_nailed:
                     lines.append(f"return {chosen_cls}.{variant_method_call}")
